@@ -9,9 +9,31 @@ open GstVerif GstVerif.LinAlg
 
 def tol : Q := pow2 (-40)
 
-def closedForm (ty : String) (h : Q) : Option (Q × Q) :=
+/-- a parameter that is a natural number / a half of an odd natural number -/
+def asNat? (p : Q) : Option Nat := if p.den = 1 ∧ p.num ≥ 0 then some p.num.toNat else none
+
+def closedFormParam (ty : String) (param h : Q) : Option (Q × Q) :=
   let exact := fun (v : Q) => some (v, v)
   match ty with
+  | "MATERN" =>
+    match asNat? (2 * param) with
+    | some twoNu =>
+      match maternHalfPoly twoNu h with
+      | some p => let (lo, hi) := expNegBounds h; some (p * lo, p * hi)
+      | none => none
+    | none => none
+  | "STABLE" =>
+    if param = 1 then some (expNegBounds h) else if param = 2 then some (expNegBounds (h * h)) else none
+  | "GAMMA" => (asNat? param).bind fun a => if a = 0 then none else exact (gammaCov a h)
+  | "CAUCHY" => (asNat? param).bind fun a => if a = 0 then none else exact (cauchyCov a h)
+  | _ => none
+
+def closedForm (tyParam : String) (h : Q) : Option (Q × Q) :=
+  let exact := fun (v : Q) => some (v, v)
+  match tyParam.splitOn "@" with
+  | [ty, p] => (parseQ? p).bind fun param => closedFormParam ty param h
+  | _ =>
+  match tyParam with
   | "SPHERICAL" => exact (spherical h)
   | "CUBIC" => exact (cubic h)
   | "TRIANGLE" => exact (triangle h)
